@@ -38,3 +38,42 @@ package codec
 //@   ensures  s.offset == old(s.offset)+1 && s.keys[old(s.offset)] == key && s.rawIndices[old(s.offset)] == rawIndex && s.alignments[old(s.offset)] == alignment
 //@   ensures  forall k int :: 0 <= k && k < old(s.offset) ==> s.keys[k] == old(s.keys[k]) && s.rawIndices[k] == old(s.rawIndices[k]) && s.alignments[k] == old(s.alignments[k])
 //@   modifies s
+
+//@ # ---- decoding arbitrary bytes (C08): "never allocates memory out of proportion to the input".
+//@ # Every allocation made while decoding is bounded by a fixed chunk plus twice the number of
+//@ # bytes already obtained from the reader (ghost binary.SpecConsumed); allocations sized by the
+//@ # codec's own state (frame.Alloc over the negotiated keys) are not input-driven.
+//@ ignorepkg github.com/synnaxlabs/x/errors
+//@ ignorepkg github.com/synnaxlabs/x/validate
+//@ ignorepkg github.com/samber/lo
+//@ ignore func (c *Codec) processUpdates()
+//@ ignore func (c *Codec) panicIfNotUpdated()
+//@ spec func decodeBudget(c *Codec, reader io.Reader) int = 1048576 + 2*binary.SpecConsumed[c.reader]
+//@ # reads exactly n bytes; the buffer only grows by as much as has already arrived
+//@ func (c *Codec) readData(n int64) (data []byte, rerr error)
+//@   untrusted_input
+//@   pragma alloc_budget decodeBudgetN
+//@   requires c.reader != nil && n >= 0 && n <= 68719476736 && binary.SpecConsumed[c.reader] >= 0
+//@   ensures rerr == nil ==> int64(len(data)) == n && binary.SpecConsumed[c.reader] == old(binary.SpecConsumed[c.reader]) + int(n)
+//@   ensures binary.SpecConsumed[c.reader] >= old(binary.SpecConsumed[c.reader])
+//@   ensures forall x *binary.Reader :: x != c.reader ==> binary.SpecConsumed[x] == old(binary.SpecConsumed[x])
+//@   modifies binary.SpecConsumed
+//@   loop 0 invariant 0 <= read && read <= len(data) && int64(len(data)) <= n && (n > 0 ==> read < len(data))
+//@   loop 0 invariant binary.SpecConsumed[c.reader] == old(binary.SpecConsumed[c.reader]) + read
+//@   loop 0 invariant forall x *binary.Reader :: x != c.reader ==> binary.SpecConsumed[x] == old(binary.SpecConsumed[x])
+//@   loop 0 modifies binary.SpecConsumed
+//@ spec func decodeBudgetN(c *Codec, n int64) int = 1048576 + 2*binary.SpecConsumed[c.reader]
+//@ spec func knownType(dt telem.DataType) bool = dt.IsVariable() || dt.Density() != 0
+//@ func (c *Codec) DecodeStream(reader io.Reader) (fr framer.Frame, err error)
+//@   untrusted_input
+//@   pragma alloc_budget decodeBudget
+//@   pragma abstract decodeFlags
+//@   pragma wraps uint64 -> int64 reinterpretation of timestamps and alignments read from the wire
+//@   requires c.reader != nil
+//@   # the negotiated channel set only holds data types the engine knows (checked when channels are created)
+//@   requires forall q uint32, k channel.Key :: __in(c.mu.states, q) && __in(c.mu.states[q].keyDataTypes, k) ==> knownType(c.mu.states[q].keyDataTypes[k])
+//@   modifies binary.SpecConsumed
+//@   loop 0 invariant binary.SpecConsumed[c.reader] >= 0
+//@   loop 0 modifies binary.SpecConsumed
+//@   loop 1 invariant binary.SpecConsumed[c.reader] >= 0
+//@   loop 1 modifies binary.SpecConsumed
